@@ -178,3 +178,4 @@ def rule_rcp_eval(ctx, R):
             want = (1 << (63 + d.bit_length())) // d
             got = run(f, d, W)
             R.check(got == want, 'randomx_reciprocal(%#x) [%s]' % (d, model), '%s:%d' % (f['file'], f['line']), expected='%#x' % want, found='%#x' % got)
+    rv64.rule_rvv_ss_rcp(ctx, R)
